@@ -40,6 +40,19 @@ def load_known() -> dict[str, dict[str, str]]:
     return known
 
 
+def anchored_files(prop: str) -> list[str]:
+    """The files properties.jsonl anchors the property in."""
+    try:
+        with open(os.path.join(env.ROOT, "properties.jsonl")) as fh:
+            for line in fh:
+                d = json.loads(line)
+                if d.get("id") == prop:
+                    return list((d.get("anchors") or {}).get("files") or [])
+    except (OSError, ValueError):
+        pass
+    return []
+
+
 def _run_shards(prop: str, jobs: list[dict], tmp: str, max_procs: int, timeout_s: float):
     """Run worker processes, at most max_procs at a time. Returns (results, problems)."""
     pending = list(enumerate(jobs))
@@ -109,6 +122,7 @@ def aggregate(results: dict[int, dict]) -> dict:
         "violation_counts": {},
         "inconclusive": [],
         "shard_wall": [],
+        "reached": {},
     }
     for i in sorted(results):
         r = results[i]
@@ -134,6 +148,8 @@ def aggregate(results: dict[int, dict]) -> dict:
             if reason not in agg["inconclusive"]:
                 agg["inconclusive"].append(reason)
         agg["shard_wall"].append(round(r.get("wall_s", 0.0), 2))
+        for f, lines in r.get("reached", {}).items():
+            agg["reached"].setdefault(f, set()).update(lines)
     return agg
 
 
@@ -244,6 +260,12 @@ def main(argv: list[str] | None = None) -> int:
     if agg["maxima"]:
         coverage["maxima"] = agg["maxima"]
     coverage.update(coverage_extra)
+    try:
+        from vf.mon import reach
+
+        coverage["anchored_code_run_under_the_monitors"] = reach.report(env.REPO, agg["reached"], anchored_files(prop))
+    except Exception as ex:  # reporting only, never a verdict
+        coverage["anchored_code_run_under_the_monitors"] = {"unavailable": repr(ex)[:200]}
     evidence = {
         "property_id": prop,
         "tier": args.tier,
